@@ -1,6 +1,54 @@
-From LD Require Import Base F32 Data Model Ops Bucket Eval EvalFacts.
-(* first obligation; the full statements of DESIGN.md section 6 are added as they are proved *)
-Theorem C05_invalid_ctx_untouched : forall re_ok re_match o E P f,
-  run re_ok re_match o E P CInvalid f = Done (mkoutcome (err_detail KUserNotSpecified) false []).
-Proof. exact run_invalid. Qed.
-Print Assumptions C05_invalid_ctx_untouched.
+(* C05 Segment membership semantics (regular segments), on the reference interpreter *)
+From LD Require Import Base F32 Data Model Ops Bucket Eval EvalFacts Pure Order SegSpec.
+
+Theorem C05_lists_priority : forall c sg,
+  regular_lists c sg = if included_any c sg then Some true else if excluded_any c sg then Some false else None.
+Proof. exact regular_lists_spec. Qed.
+Print Assumptions C05_lists_priority.
+
+Theorem C05_membership : forall re_ok re_match o E P c n chain sg,
+  sg_unbounded sg = false -> mem_str (sg_key sg) chain = false ->
+  p_seg re_ok re_match o E P c (S n) chain sg =
+  if included_any c sg then Done (Ok true)
+  else if excluded_any c sg then Done (Ok false)
+  else p_seg_rules (p_seg_rule re_ok re_match o E c (p_seg re_ok re_match o E P c n (chain ++ [sg_key sg])) sg)
+                   (sg_key sg) (sg_rules sg).
+Proof. exact p_seg_regular. Qed.
+Print Assumptions C05_membership.
+
+(* rules in listed order, first match; an error inside a rule is wrapped with the segment's key *)
+Theorem C05_rules_first_match : forall rm key rs,
+  p_seg_rules rm key rs = first_decided (segrule_step rm key) rs (Done (Ok false)).
+Proof. exact p_seg_rules_first. Qed.
+Print Assumptions C05_rules_first_match.
+
+Theorem C05_weighted_rule : forall re_ok re_match o E c segc sg r w b fl,
+  sr_weight r = Some w ->
+  p_all_clauses (p_clause re_ok re_match E c segc) (sr_clauses r) = Done (Ok true) ->
+  compute_bucket (o_secondary o) c false None (sr_kind r) (sg_key sg) (sr_bucket_by r) (sg_salt sg) = Ok (b, fl) ->
+  p_seg_rule re_ok re_match o E c segc sg r =
+  Done (Ok (match fl with BLacksKind => false | _ => f32_ltb b (weight_frac w) end)).
+Proof. exact p_seg_rule_weighted. Qed.
+Print Assumptions C05_weighted_rule.
+
+Theorem C05_rollout_kind_absent : forall sec x isexp seed kind key attr salt b,
+  compute_bucket sec x isexp seed kind key attr salt = Ok (b, BLacksKind) <->
+  (isexp || negb (ref_defined attr) || negb (ref_has_err attr) = true) /\ ctx_by_kind x kind = None /\ b = f32_zero.
+Proof. exact bucket_lacks_kind. Qed.
+Print Assumptions C05_rollout_kind_absent.
+
+(* a segment-match clause: true iff the context is in at least one referenced segment that exists in the store;
+   missing segments and non-string values are skipped; negation inverts exactly that *)
+Theorem C05_segment_match_clause : forall E segc negate vals,
+  p_any_segment E segc negate vals = first_decided (segkey_step E segc negate) vals (Done (Ok negate)).
+Proof. exact p_any_segment_first. Qed.
+Print Assumptions C05_segment_match_clause.
+
+Theorem C05_missing_segment_skipped : forall E segc neg k,
+  assoc k (e_segments E) = None -> segkey_step E segc neg (JStr k) = Done None.
+Proof. exact segkey_step_missing. Qed.
+Print Assumptions C05_missing_segment_skipped.
+
+Theorem C05_non_string_skipped : forall E segc neg v, (forall k, v <> JStr k) -> segkey_step E segc neg v = Done None.
+Proof. exact segkey_step_nonstring. Qed.
+Print Assumptions C05_non_string_skipped.
